@@ -43,17 +43,21 @@ try:
         out['tests_tail'] = t.stdout.strip().splitlines()[-1] if t.stdout.strip() else ''
         d1 = subprocess.run(['/venv/bin/python', os.path.join(seed, 'demo.py')], cwd=wt, env=env, capture_output=True, text=True, timeout=600)
         out['demo_with_change'] = d1.returncode
-        subprocess.check_call(['git', '-C', wt, 'stash', '-q'])
+        # (no git stash here: the stash list is shared by all worktrees of a repository)
+        subprocess.check_call(['git', '-C', wt, 'diff', '--output', os.path.join(wt, '.applied.diff')])
+        subprocess.check_call(['git', '-C', wt, 'checkout', '-q', '--', '.'])
         d0 = subprocess.run(['/venv/bin/python', os.path.join(seed, 'demo.py')], cwd=wt, env=env, capture_output=True, text=True, timeout=600)
         out['demo_without_change'] = d0.returncode
-        subprocess.check_call(['git', '-C', wt, 'stash', 'pop', '-q'])
+        subprocess.check_call(['git', '-C', wt, 'apply', '--whitespace=nowarn', os.path.join(wt, '.applied.diff')])
+        os.remove(os.path.join(wt, '.applied.diff'))
         evd = tempfile.mkdtemp(prefix='vsev-', dir='/tmp')
         out['checks'] = {}
         for p in props:
             env2 = dict(os.environ, GTVERIF_REPO=wt, GTVERIF_EVIDENCE_DIR=evd)
             c = subprocess.run(['/venv/bin/python', '-m', 'gtverif', 'check', p], cwd='/verif', env=env2, capture_output=True, text=True)
-            lines = [l for l in c.stdout.splitlines() if l.startswith(('VIOLATION', 'ANALYSIS-ERROR', '  reason', '  R-')) ]
-            out['checks'][p] = {'rc': c.returncode, 'lines': lines[:8]}
+            lines = [l for l in c.stdout.splitlines() if l.startswith(('VIOLATION', 'ANALYSIS-ERROR', '  reason'))]
+            rules = sorted({l.split()[0] for l in c.stdout.splitlines() if l.startswith('  R-') and ' :: ' in l})
+            out['checks'][p] = {'rc': c.returncode, 'rules': rules, 'lines': lines[:6]}
         shutil.rmtree(evd, ignore_errors=True)
 finally:
     subprocess.call(['git', '-C', '/repo', 'worktree', 'remove', '--force', wt])
